@@ -59,6 +59,11 @@ impl Prop for C13 {
                     return (out, Tape::replay(Default::default()));
                 }
             }
+        } else if idx % 12 == 7 {
+            // one case in twelve: the HTTP game against a scripted HTTP peer (the real HTTP client runs)
+            let scn = crate::scenarios::eco_http_scenario(&mut t, SERVER_IP, 2);
+            let (w, script) = hostile_world(t, &scn, true, false);
+            (scn.call, w, script)
         } else {
             let scn = gen_scenario(&mut t, SERVER_IP, 2);
             let (w, script) = hostile_world(t, &scn, true, false);
